@@ -1162,6 +1162,93 @@ def rule_r18(ctx) -> RuleResult:
     return rr
 
 
+def rule_r19(ctx) -> RuleResult:
+    """Callers test `name.startswith(namespace_prefixes(ns))` and then cut the name at `name.index(":")` (the parser's
+    template_name, get_page): that is safe only because every prefix ends with the separator passed as `suffix`.  Every string
+    that enters the returned collection therefore has the form `<something> + suffix` (seed C01-9B: the canonical English key
+    appended bare -- `{{templatefoo}}` under lang_code="fr" raises ValueError out of parse())."""
+    rr = RuleResult("C10.R19", "every prefix namespace_prefixes returns ends with the separator it was given", min_instances=1)
+    dotted = "core.Wtp.namespace_prefixes"
+    fn = ctx.fn(dotted)
+    params = [a.arg for a in fn.args.args]
+    sfx = [a for a in params if a not in ("self", "lower", "ns_id")]
+    if len(sfx) != 1:
+        raise AnalysisError("namespace_prefixes: the separator parameter was not identified")
+    sfx = sfx[0]
+
+    def suffixed(e) -> bool:
+        if isinstance(e, ast.BinOp) and isinstance(e.op, ast.Add):
+            return isinstance(e.right, ast.Name) and e.right.id == sfx or suffixed(e.right)
+        if isinstance(e, ast.IfExp):
+            return suffixed(e.body) and suffixed(e.orelse)
+        if isinstance(e, ast.JoinedStr) and e.values:
+            last = e.values[-1]
+            return isinstance(last, ast.FormattedValue) and isinstance(last.value, ast.Name) and last.value.id == sfx
+        if isinstance(e, ast.Call) and isinstance(e.func, ast.Attribute) and e.func.attr in ("lower", "casefold") and not e.args:
+            return suffixed(e.func.value)
+        if isinstance(e, ast.Call) and isinstance(e.func, ast.Attribute) and e.func.attr == "format" and False:
+            return False
+        return False
+
+    def elements(e):
+        """element-producing expressions of a collection-valued expression (None when not recognised)"""
+        if isinstance(e, ast.Call) and isinstance(e.func, ast.Name) and e.func.id in ("tuple", "list", "sorted", "set", "frozenset") and len(e.args) == 1:
+            return elements(e.args[0])
+        if isinstance(e, (ast.Tuple, ast.List, ast.Set)):
+            if any(isinstance(x, ast.Starred) for x in e.elts):
+                return None
+            return list(e.elts)
+        if isinstance(e, (ast.ListComp, ast.GeneratorExp, ast.SetComp)):
+            return [e.elt]
+        if isinstance(e, ast.Call) and isinstance(e.func, ast.Name) and e.func.id == "map" and len(e.args) == 2 and isinstance(e.args[0], ast.Lambda):
+            return [e.args[0].body]
+        if isinstance(e, ast.BinOp) and isinstance(e.op, ast.Add):
+            a, b = elements(e.left), elements(e.right)
+            return None if a is None or b is None else a + b
+        if isinstance(e, ast.Name):
+            return "name:" + e.id
+        return None
+
+    returned = set()
+    checked = 0
+    work = []
+    for r in [n for n in walk_no_nested(fn) if isinstance(n, ast.Return) and n.value is not None]:
+        el = elements(r.value)
+        if isinstance(el, str):
+            returned.add(el[5:])
+        elif el is not None:
+            work.extend((x, r) for x in el)
+    for n in walk_no_nested(fn):
+        tgt = val = None
+        if isinstance(n, ast.Assign) and len(n.targets) == 1 and isinstance(n.targets[0], ast.Name) and n.targets[0].id in returned:
+            tgt, val = n.targets[0].id, n.value
+        elif isinstance(n, ast.AugAssign) and isinstance(n.target, ast.Name) and n.target.id in returned and isinstance(n.op, ast.Add):
+            tgt, val = n.target.id, n.value
+        elif isinstance(n, ast.Expr) and isinstance(n.value, ast.Call) and isinstance(n.value.func, ast.Attribute) \
+                and n.value.func.attr in ("append", "add") and isinstance(n.value.func.value, ast.Name) and n.value.func.value.id in returned and n.value.args:
+            work.append((n.value.args[0], n))
+            continue
+        if val is None:
+            continue
+        el = elements(val)
+        if isinstance(el, list):
+            work.extend((x, n) for x in el)
+    for e, at in work:
+        if isinstance(e, ast.Name) and not suffixed(e):
+            continue   # a string computed elsewhere: not decided here
+        checked += 1
+        if suffixed(e):
+            rr.ok(dotted, "`{}` ends with `{}`".format(unparse(e)[:50], sfx))
+        elif not any(isinstance(x, ast.Name) and x.id == sfx for x in ast.walk(e)):
+            rr.bad(Finding("C10.R19", CORE, dotted, unparse(e)[:70],
+                           "this string enters the returned prefixes without the separator `{}`: callers cut a name that starts with one of the "
+                           "prefixes at `name.index(':')`, which raises ValueError for a name that merely starts with the bare word "
+                           "(`{{{{templatefoo}}}}` on a non-English edition)".format(sfx), at.lineno))
+    if checked == 0:
+        raise AnalysisError("namespace_prefixes: how the returned prefixes are built was not recognised")
+    return rr
+
+
 def _p():
     from . import _expand
 
@@ -1171,4 +1258,4 @@ def _p():
 def run(ctx) -> list:
     sf = SqlFacts(ctx.index)
     return [rule_r1(ctx, sf), rule_r2(ctx, sf), rule_r3(ctx, sf), rule_r4(ctx, sf), rule_r5(ctx, sf), rule_r6(ctx, sf),
-            rule_r7(ctx, sf), rule_r8(ctx), rule_r9(ctx), rule_r10(ctx), rule_r11(ctx, sf), rule_r12(ctx, sf), rule_r13(ctx), rule_r14(ctx), rule_r15(ctx), rule_r16(ctx, sf), rule_r17(ctx, sf), rule_r18(ctx)]
+            rule_r7(ctx, sf), rule_r8(ctx), rule_r9(ctx), rule_r10(ctx), rule_r11(ctx, sf), rule_r12(ctx, sf), rule_r13(ctx), rule_r14(ctx), rule_r15(ctx), rule_r16(ctx, sf), rule_r17(ctx, sf), rule_r18(ctx), rule_r19(ctx)]
